@@ -148,13 +148,13 @@ pub static DEVICES: LazyLock<HashMap<&'static str, Device>> = LazyLock::new(|| {
         // ATtiny4
         // ATtiny5
         // ATtiny9
-        "ATtiny10" => Device {flash_size: 512, ram_start: 0x00, ram_size: 0, eeprom_size: 0, disable_opts: btreeset!{NoMul, NoJmp, Tiny1x, NoXreg, NoYreg, NoLpmX, NoElpm, NoSpm, NoEspm, NoMovw, NoBreak, NoEicall, NoEijmp} },
+        "ATtiny10" => Device {flash_size: 512, ram_start: 0x40, ram_size: 32, eeprom_size: 0, disable_opts: btreeset!{NoMul, NoJmp, Tiny1x, NoXreg, NoYreg, NoLpmX, NoElpm, NoSpm, NoEspm, NoMovw, NoBreak, NoEicall, NoEijmp} },
         "ATtiny11" => Device {flash_size: 512, ram_start: 0x00, ram_size: 0, eeprom_size: 0, disable_opts: btreeset!{NoMul, NoJmp, Tiny1x, NoXreg, NoYreg, NoLpmX, NoElpm, NoSpm, NoEspm, NoMovw, NoBreak, NoEicall, NoEijmp} },
         "ATtiny12" => Device {flash_size: 512, ram_start: 0x00, ram_size: 0, eeprom_size: 64, disable_opts: btreeset!{NoMul, NoJmp, Tiny1x, NoXreg, NoYreg, NoLpmX, NoElpm, NoSpm, NoEspm, NoMovw, NoBreak, NoEicall, NoEijmp} },
         "ATtiny13" => Device {flash_size: 512, ram_start: 0x60, ram_size: 64, eeprom_size: 64, disable_opts: btreeset!{NoMul, NoJmp, NoElpm, NoEspm, NoEicall, NoEijmp} },
         "ATtiny13A" => Device {flash_size: 512, ram_start: 0x60, ram_size: 64, eeprom_size: 64, disable_opts: btreeset!{NoMul, NoJmp, NoElpm, NoEspm, NoEicall, NoEijmp} },
         "ATtiny15" => Device {flash_size: 512, ram_start: 0x00, ram_size: 0, eeprom_size: 64, disable_opts: btreeset!{NoMul, NoJmp, Tiny1x, NoXreg, NoYreg, NoLpmX, NoElpm, NoSpm, NoEspm, NoMovw, NoBreak, NoEicall, NoEijmp} },
-        "ATtiny20" => Device {flash_size: 2048, ram_start: 0x40, ram_size: 128, eeprom_size: 0, disable_opts: btreeset!{Avr8l, NoJmp, NoMul, NoEijmp, NoEicall, NoMovw, NoLpm, NoElpm, NoSpm, NoEspm, NoBreak} },
+        "ATtiny20" => Device {flash_size: 1024, ram_start: 0x40, ram_size: 128, eeprom_size: 0, disable_opts: btreeset!{Avr8l, NoJmp, NoMul, NoEijmp, NoEicall, NoMovw, NoLpm, NoElpm, NoSpm, NoEspm, NoBreak} },
         "ATtiny22" => Device {flash_size: 1024, ram_start: 0x60, ram_size: 128, eeprom_size: 128, disable_opts: btreeset!{NoMul, NoJmp, NoLpmX, NoElpm, NoSpm, NoEspm, NoMovw, NoBreak, NoEicall, NoEijmp} },
         "ATtiny24" => Device {flash_size: 1024, ram_start: 0x60, ram_size: 128, eeprom_size: 128, disable_opts: btreeset!{NoMul, NoJmp, NoElpm, NoEspm, NoEicall, NoEijmp} },
         "ATtiny24A" => Device {flash_size: 1024, ram_start: 0x60, ram_size: 128, eeprom_size: 128, disable_opts: btreeset!{NoMul, NoJmp, NoElpm, NoEspm, NoEicall, NoEijmp} },
@@ -202,16 +202,16 @@ pub static DEVICES: LazyLock<HashMap<&'static str, Device>> = LazyLock::new(|| {
         "ATmega328P" => Device {flash_size: 16384, ram_start: 0x100, ram_size: 2048, eeprom_size: 1024, disable_opts: btreeset!{NoEicall, NoEijmp, NoElpm, NoEspm} },
         "ATmega32" => Device {flash_size: 16384, ram_start: 0x60, ram_size: 2048, eeprom_size: 1024, disable_opts: btreeset!{NoEicall, NoEijmp, NoElpm, NoEspm} },
         "ATmega603" => Device {flash_size: 32768, ram_start: 0x60, ram_size: 4096, eeprom_size: 2048, disable_opts: btreeset!{NoEicall, NoEijmp, NoMul, NoMovw, NoLpmX, NoElpm, NoSpm, NoEspm, NoBreak} },
-        "ATmega103" => Device {flash_size: 65536, ram_start: 0x60, ram_size: 4096, eeprom_size: 4096, disable_opts: btreeset!{NoEicall, NoEijmp, NoMul, NoMovw, NoLpmX, NoElpmX, NoSpm, NoEspm, NoBreak} }, // 137 - EICALL - EIJMP - MUL(6) - MOVW - LPM_X(2) - ELPM_X(2) - SPM - ESPM - BREAK = 121
+        "ATmega103" => Device {flash_size: 65536, ram_start: 0x60, ram_size: 4000, eeprom_size: 4096, disable_opts: btreeset!{NoEicall, NoEijmp, NoMul, NoMovw, NoLpmX, NoElpmX, NoSpm, NoEspm, NoBreak} }, // 137 - EICALL - EIJMP - MUL(6) - MOVW - LPM_X(2) - ELPM_X(2) - SPM - ESPM - BREAK = 121
         "ATmega104" => Device {flash_size: 65536, ram_start: 0x60, ram_size: 4096, eeprom_size: 4096, disable_opts: btreeset!{NoEicall, NoEijmp, NoEspm} }, // Old name for mega128
         "ATmega128" => Device {flash_size: 65536, ram_start: 0x100, ram_size: 4096, eeprom_size: 4096, disable_opts: btreeset!{NoEicall, NoEijmp, NoEspm} }, // 137 - EICALL - EIJMP - ESPM = 134 (Data sheet says 133 but it's wrong)
         "ATmega48" => Device {flash_size: 2048, ram_start: 0x100, ram_size: 512, eeprom_size: 256, disable_opts: btreeset!{NoEicall, NoEijmp, NoElpm, NoEspm} },
         "ATmega88" => Device {flash_size: 4096, ram_start: 0x100, ram_size: 1024, eeprom_size: 512, disable_opts: btreeset!{NoEicall, NoEijmp, NoElpm, NoEspm} },
         "ATmega168" => Device {flash_size: 8192, ram_start: 0x100, ram_size: 1024, eeprom_size: 512, disable_opts: btreeset!{NoEicall, NoEijmp, NoElpm, NoEspm} },
-        "ATmega644" => Device {flash_size: 65536, ram_start: 0x100, ram_size: 4096, eeprom_size: 2048, disable_opts: btreeset!{NoEicall, NoEijmp, NoElpm, NoEspm} },
-        "ATmega8515" => Device {flash_size: 8192, ram_start: 0x60, ram_size: 512, eeprom_size: 512, disable_opts: btreeset!{NoEicall, NoEijmp, NoElpm, NoEspm} },
+        "ATmega644" => Device {flash_size: 32768, ram_start: 0x100, ram_size: 4096, eeprom_size: 2048, disable_opts: btreeset!{NoEicall, NoEijmp, NoElpm, NoEspm} },
+        "ATmega8515" => Device {flash_size: 4096, ram_start: 0x60, ram_size: 512, eeprom_size: 512, disable_opts: btreeset!{NoEicall, NoEijmp, NoElpm, NoEspm} },
         "ATmega1280" => Device {flash_size: 65536, ram_start: 0x200, ram_size: 8192, eeprom_size: 4096, disable_opts: btreeset!{NoEicall, NoEijmp, NoEspm} },
-        "ATmega2560" => Device {flash_size: 262144, ram_start: 0x200, ram_size: 8192, eeprom_size: 4096, disable_opts: btreeset!{NoEspm} },
+        "ATmega2560" => Device {flash_size: 131072, ram_start: 0x200, ram_size: 8192, eeprom_size: 4096, disable_opts: btreeset!{NoEspm} },
         /* Other */
         "AT94K" => Device {flash_size: 8192, ram_start: 0x60, ram_size: 16384, eeprom_size: 0, disable_opts: btreeset!{NoEicall, NoEijmp, NoElpm, NoSpm, NoEspm, NoBreak} }, // 137 - EICALL - EIJMP - ELPM(3) - SPM - ESPM - BREAK = 129
     }
